@@ -370,7 +370,9 @@ func (w *World) hashOnce(files []string, sched Sched, inv int, faults []HFault, 
 	if workers < 1 {
 		workers = 1
 	}
-	s := &Scheduler{ch: ch, Budget: 8*len(files) + 4*workers + 32}
+	// livelock budget: today every file causes at most 5 yields; 16 per file leaves room for a
+	// restructured pool with more hand-offs per file without turning the budget into a false alarm
+	s := &Scheduler{ch: ch, Budget: 16*len(files) + 8*workers + 64}
 	f := NoFaults()
 	f.OpenErr, f.ReadErr = map[string]string{}, map[string]string{}
 	var unlinks []HFault
@@ -732,6 +734,51 @@ func (hashsched) Exec(w *World, cc any, prop string) *Result {
 		}
 		base = run(abs, c.Sched, c.Faults, -1)
 		judge18(base, "run("+faultSig()+")")
+		// system-level twin: the same list as the literal dependencies of a task, through the real CLI
+		if len(list) > 0 && len(list) <= 6 && c.Big == 0 && res.first("C18") == nil {
+			var deps []string
+			ok := true
+			for _, p := range list {
+				if strings.ContainsAny(p, "*\"") {
+					ok = false
+				}
+				deps = append(deps, fmt.Sprintf("%q", "../../hc/"+p))
+			}
+			if ok {
+				writeFile(filepath.Join(w.Proj, "spokfile"), fmt.Sprintf("task HHHHHH(%s) {\n    echo ran\n}\n", strings.Join(deps, ", ")))
+				f := NoFaults()
+				f.OpenErr, f.ReadErr = map[string]string{}, map[string]string{}
+				for _, ft := range c.Faults {
+					a := filepath.Join(w.corpus(), filepath.FromSlash(ft.Path))
+					if ft.Kind == "open" {
+						f.OpenErr[a] = ft.Errno
+					}
+					if ft.Kind == "read" {
+						f.ReadErr[a] = ft.Errno
+					}
+				}
+				obs := w.Invoke(Invocation{Args: []string{"HHHHHH", "--json"}, Cwd: w.Proj, Env: w.BaseEnv(), Inv: 50, Sched: c.Sched, Faults: f})
+				res.Ops++
+				res.Steps += len(obs.Trace)
+				res.event("cli list=%d bad=%d failed=%v out=%s", len(list), staticBad+injected, obs.Failed, outcomeStr(obs.Out))
+				res.count("probe:system_level_twin")
+				sig := "cli:" + faultSig()
+				switch {
+				case obs.Out.Panic != "":
+					res.violate("C18", "no-panic", sig, "`spok T` with an unreadable dependency panicked: %s", short(obs.Out.Panic, 300))
+				case obs.Out.Deadlock || obs.Out.Livelock:
+					res.violate("C18", "no-deadlock", sig, "`spok T` with dependencies %v never returned", list)
+				case obs.HashLeak:
+					res.violate("C18", "no-leak", sig, "`spok T` left hash goroutines blocked for ever")
+				case staticBad+injected > 0 && !obs.Failed:
+					res.violate("C18", "unreadable-implies-error", sig, "a dependency of the task cannot be opened or read, yet `spok T` succeeded (stdout %q)", short(obs.Stdout, 200))
+				case staticBad+injected > 0 && strings.TrimSpace(obs.ErrText) == "":
+					res.violate("C18", "unreadable-implies-error", sig, "`spok T` failed without a message")
+				case staticBad+injected == 0 && obs.Failed:
+					res.violate("C18", "readable-implies-digest", sig, "every dependency is readable, yet `spok T` failed: %s", short(obs.ErrText, 300))
+				}
+			}
+		}
 		if staticBad+injected > 0 {
 			res.distinct(fmt.Sprintf("cell:L%d:%s:%s:%s", len(list), faultSig(), posOf(list, c.Faults), traceHash(base.trace)))
 		}
